@@ -64,7 +64,7 @@ func (E *Engine) modCompsStatic(mi *modItem) []string {
 	if lv.Kind == lvElem {
 		root = elemsRoot(lv.Root)
 	} else {
-		root = E.rootName(lv.Root)
+		root = E.rootOf(lv)
 	}
 	var ls []leafInfo
 	E.leafPaths(E.lvType(lv), "", &ls)
